@@ -38,3 +38,7 @@ def run(check: Check, repo: Repo, tier: str) -> None:
     X.unintegrated_work(check, repo)
     X.abort_callback(check, repo)
     X.handover_owner(check, repo)
+    X.future_exception_guard(check, repo, repo.package_modules('execution'))
+    from rules import stream_rules as T
+
+    T.error_keeps_items(check, repo)
